@@ -15,7 +15,7 @@ PROPS = {
              "run by the owning properties' checks); the watchdog bound (200x the median of same-size inputs, floor 2 s). Block parsers and concrete "
              "inline parsers are not yet inside the proved model.",
         technique="Lean 4 no-panic / termination theorems over the models of the components + exhaustive and random search with watchdog on the whole pipeline",
-        components=["total"],
+        components=["total", "blocks"],
         explanation="Proved per modelled component for all inputs (see theorem list); searched: every string of length <= 3 over a 22-symbol and <= 4 "
                     "over an 11-symbol Markdown-significant alphabet under 4 extreme configurations, mutated/generated/adversarial/long/deep documents under "
                     "the full lattice, both API paths, panic recovery, watchdog.",
@@ -200,7 +200,7 @@ PROPS = {
         note="Trusted: Lean kernel; gmgen's syntactic phase/call-site facts; the model of util.ToLinkReference (tied by the util correspondence, C19). "
              "The block driver (open-block stack, context keys reset on close) is not modelled.",
         technique="Lean 4 theorems over a model of the reference map + kernel-checked obligations over regenerated phase facts; metamorphic search (A+h+B, moved definitions)",
-        components=["indep"],
+        components=["indep", "blocks"],
         explanation="Proved for all definition lists / uses in the reference-map model; facts re-extracted each run; searched: pairs (A,B) without '[' "
                     "and CR where A does not end inside a code/HTML block (checked on the real parse), and documents with fresh definitions moved from top to bottom, "
                     "referenced in case/whitespace variants, core and GFM.",
@@ -344,7 +344,7 @@ PROPS = {
              "text.Reader/Context); the correspondence harness. The block driver (parseBlocks/openBlocks/closeBlocks, blank-line bookkeeping, lazy "
              "continuation, HTML blocks, lists, paragraphs) is not modelled - it is covered by the search only.",
         technique="Lean 4 theorems over models of the line recognisers + exhaustive function-level correspondence; metamorphic search",
-        components=["linerec", "quote"],
+        components=["linerec", "quote", "blocks"],
         tie=["linerec"],
         explanation="Proved (GM.Props.C08): quote_consumes_marker / _nospace / quote_declines (marker consumption on every tab-free line, any prefix), "
                     "offset_invariant / offset_invariant_quote / indent_pos_tabfree (all offset-taking line recognisers are column-independent on tab-free "
